@@ -768,6 +768,7 @@ func (s *c07sel) flagAt(ci ssa.CallInstruction) (k *bool, ok bool) {
 func checkC07(c *Check) {
 	lockBalanceRule(c, "C07", pServer)
 	c07Extra(c)
+	c07AtomicFlag(c)
 	p := c.P
 	x := &c07ctx{c: c, p: p, la: p.Locks(), closeFns: map[*ssa.Function]*ssa.Store{}, selMemo: map[*ssa.Function]*c07sel{}, keySeen: map[string]int{}}
 	x.entT = p.Named(pServer, "udpSessionEntry")
